@@ -39,7 +39,15 @@ type parked struct {
 	site string
 	id   uint64
 	ord  int
+	step int // scheduler step at which it parked
 	ch   chan struct{}
+}
+
+// yieldEv is one park/release, kept to derive "which race window did this run open" features.
+type yieldEv struct {
+	site          string
+	id            uint64
+	park, release int // steps; release -1 while parked
 }
 
 // Sim is the scheduler. Its Run loop executes on the root goroutine of a
@@ -60,6 +68,7 @@ type Sim struct {
 	Gates    bool            // "gate:" sites (cross-goroutine hand-offs) always park
 	armAll   bool
 	tickUsed time.Duration
+	yields   []*yieldEv
 	probes   map[string]int
 	parks    map[string]int
 
@@ -201,8 +210,11 @@ func (s *Sim) Yield(site string, id uint64) {
 		return
 	}
 	s.parkOrd++
-	p := &parked{site: site, id: id, ord: s.parkOrd, ch: make(chan struct{})}
+	p := &parked{site: site, id: id, ord: s.parkOrd, step: s.Step, ch: make(chan struct{})}
 	s.parkedG = append(s.parkedG, p)
+	if len(s.yields) < 20000 {
+		s.yields = append(s.yields, &yieldEv{site: site, id: id, park: s.Step, release: -1})
+	}
 	s.parks[site]++
 	s.mu.Unlock()
 	s.Poke()
@@ -368,6 +380,14 @@ func (s *Sim) Run(done func() bool) {
 				}
 			}
 			s.mu.Unlock()
+			s.mu.Lock()
+			for _, y := range s.yields {
+				if y.release < 0 && y.site == c.pk.site && y.id == c.pk.id && y.park == c.pk.step {
+					y.release = s.Step
+					break
+				}
+			}
+			s.mu.Unlock()
 			s.Logf("release %s#%d", c.pk.site, c.pk.id)
 			s.sigAdd("Y:" + c.pk.site)
 			close(c.pk.ch)
@@ -398,4 +418,49 @@ func (nc netCand) connRole() string {
 		return nc.conn.Role
 	}
 	return "dial"
+}
+
+// RaceFeatures derives, from the park/release record, which of the known race
+// windows this run actually opened (used as conditions of known findings, so
+// that a finding only covers runs in which its specific interleaving happened).
+func (s *Sim) RaceFeatures() map[string]int {
+	s.mu.Lock()
+	defer s.mu.Unlock()
+	out := map[string]int{}
+	inf := 1 << 60
+	rel := func(y *yieldEv) int {
+		if y.release < 0 {
+			return inf
+		}
+		return y.release
+	}
+	for _, t := range s.yields {
+		switch t.site {
+		case "gate:proxy.timer.global", "x:proxy.timer.global.cas":
+			// the global timer of stream X had fired (was parked at its gate) and a retry of X proceeded afterwards
+			for _, r := range s.yields {
+				if r.site == "gate:proxy.retry" && r.id == t.id && rel(r) > t.park && r.release >= 0 {
+					out["race:global_timer_before_retry"]++
+					break
+				}
+			}
+		case "gate:proxy.timer.pertry", "x:proxy.timer.pertry.cas":
+			// the per-try timer callback of X was parked while the worker of X ran another step (notify / retry)
+			for _, r := range s.yields {
+				if (r.site == "gate:proxy.notify" || r.site == "gate:proxy.retry") && r.id == t.id && r.release > t.park && r.release < rel(t) {
+					out["race:pertry_timer_parked_across_worker_step"]++
+					break
+				}
+			}
+		case "x:proxy.upstream.onreceive.cas":
+			// the response handler of X was parked before its CAS while a timer callback of X ran
+			for _, r := range s.yields {
+				if (r.site == "gate:proxy.timer.pertry" || r.site == "gate:proxy.timer.global" || r.site == "x:proxy.timer.pertry.cas" || r.site == "x:proxy.timer.global.cas") && r.id == t.id && r.release > t.park && r.release < rel(t) {
+					out["race:response_parked_across_timer"]++
+					break
+				}
+			}
+		}
+	}
+	return out
 }
